@@ -30,7 +30,7 @@ type refRecvScript struct {
 }
 
 type refReceiver struct {
-	st     *PipeStream
+	st     c0607Conn
 	script refRecvScript
 
 	mu         sync.Mutex
@@ -46,7 +46,7 @@ type refReceiver struct {
 	done       chan struct{}
 }
 
-func startRefReceiver(st *PipeStream, script refRecvScript, hangup func()) *refReceiver {
+func startRefReceiver(st c0607Conn, script refRecvScript, hangup func()) *refReceiver {
 	r := &refReceiver{st: st, script: script, term: map[uint32]int{}, hangup: hangup, done: make(chan struct{})}
 	r.cond = sync.NewCond(&r.mu)
 	var wg sync.WaitGroup
@@ -187,7 +187,7 @@ type refTransfer struct {
 }
 
 type refSender struct {
-	st      *PipeStream
+	st      c0607Conn
 	entries []refEntry
 	script  refSendScript
 	onFin   func()
@@ -202,7 +202,7 @@ type refSender struct {
 	done       chan struct{}
 }
 
-func startRefSender(st *PipeStream, entries []refEntry, script refSendScript, onFin func(), hangup func()) *refSender {
+func startRefSender(st c0607Conn, entries []refEntry, script refSendScript, onFin func(), hangup func()) *refSender {
 	s := &refSender{st: st, entries: entries, script: script, onFin: onFin, hangup: hangup, done: make(chan struct{})}
 	s.cond = sync.NewCond(&s.mu)
 	var wg sync.WaitGroup
